@@ -79,6 +79,8 @@ def run(ctx):
     r01_10(ctx)
     r01_11(ctx)
     r01_12(ctx)
+    from . import groups
+    groups.eyeball_close_and_wake(ctx)  # a premature or missing close makes next() ready (None) / pending at the wrong time
 
 
 # ---------------------------------------------------------------------------
@@ -479,7 +481,23 @@ def r01_7(ctx, init):
             else:
                 ok = mentions_call(e, r"ObservableState::<.*>::version$")
                 c = strip(e)
-                if ok:
+                alts = []
+
+                def leaves(x):
+                    if x[0] == "phi":
+                        for y in x[1]:
+                            leaves(y)
+                    elif x[0] == "call" and isinstance(x[1], str) and re.search(r"unwrap_or(_else|_default)?$|map_or(_else)?$", x[1]):
+                        for y in x[3]:
+                            leaves(y)
+                    else:
+                        alts.append(strip(x))
+                leaves(e)
+                const_alt = [a for a in alts if a[0] == "const"]
+                if ok and const_alt:
+                    ctx.violated("R01.7", root, "initial-version", where,
+                                 "`%s` passes the current version() on some paths but the constant `%s` on others (e.g. a try-lock fallback): a subscriber created on that path reports an update that happened before it subscribed" % (root.name, fmt(const_alt[0])))
+                elif ok:
                     ctx.holds("R01.7", root, "initial-version", where, "subscribe passes the current version()")
                 elif c[0] == "const":
                     ctx.violated("R01.7", root, "initial-version", where, "`%s` passes constant `%s` as the observed version: a fresh subscriber reports an update that never happened" % (root.name, fmt(e)))
